@@ -381,24 +381,11 @@ pub fn programs(tier: &str) -> Vec<Program> {
                 vec![Op::Compact(vec![s("p2")], s("p0"))],
             ],
         });
-        v.push(Program {
-            name: s("retry-exhaustion"),
-            initial: pop.clone(),
-            clients: vec![
-                vec![Op::Del(s("p0"))],
-                vec![Op::Reg(s("a1"), 1, 1), Op::Reg(s("a2"), 1, 1), Op::Reg(s("a3"), 1, 1)],
-                vec![Op::Reg(s("b1"), 2, 2), Op::Reg(s("b2"), 2, 2), Op::Reg(s("b3"), 2, 2)],
-            ],
-        });
-        v.push(Program {
-            name: s("retry-exhaustion-compact"),
-            initial: pop.clone(),
-            clients: vec![
-                vec![Op::Compact(vec![s("p0"), s("p1")], s("p2"))],
-                vec![Op::Reg(s("a1"), 1, 1), Op::Reg(s("a2"), 1, 1), Op::Reg(s("a3"), 1, 1)],
-                vec![Op::Reg(s("b1"), 2, 2), Op::Reg(s("b2"), 2, 2), Op::Reg(s("b3"), 2, 2)],
-            ],
-        });
+        // conflict-retry exhaustion: the victim loses five CAS rounds against one adversary (2 clients: all interleavings)
+        let adversary: Vec<Op> = (1..=6).map(|i| Op::Reg(format!("a{i}"), 1, 1)).collect();
+        v.push(Program { name: s("retry-exhaustion/delete"), initial: pop.clone(), clients: vec![vec![Op::Del(s("p0"))], adversary.clone()] });
+        v.push(Program { name: s("retry-exhaustion/compact"), initial: pop.clone(), clients: vec![vec![Op::Compact(vec![s("p0"), s("p1")], s("p2"))], adversary.clone()] });
+        v.push(Program { name: s("retry-exhaustion/register"), initial: pop.clone(), clients: vec![vec![Op::Reg(s("v"), 2, 3)], adversary] });
     }
     v
 }
@@ -418,7 +405,7 @@ pub fn run(tier: &str) -> i32 {
         let three = prog.clients.len() >= 3;
         let cfg = ExploreConfig {
             // 2 clients: all interleavings (no preemption bound); 3 clients: preemption bound
-            bounds: Cost { preempt: if three { if prog.name.starts_with("retry") { 12 } else { 4 } } else { 1000 }, ..Cost::ZERO },
+            bounds: Cost { preempt: if three { 4 } else { 1000 }, ..Cost::ZERO },
             use_cache: true,
             wall_cap: Duration::from_secs(if tier == "thorough" { 900 } else { 120 }),
             ..Default::default()
